@@ -55,6 +55,10 @@ CLAIMED = {
     text="Proof: the lock/call graph of Client (every `with self._lock`, try-lock guard, method call, user-callback site; lock kinds from __init__) is regenerated from client.py on every run by a fail-closed translator; a verified decision procedure (closed-set soundness theorem proved once for every program) applied to it by vm_compute shows that no execution of any length or callback->API->callback nesting depth re-acquires a held plain lock: publish/subscribe/unsubscribe/disconnect/reconnect/message_callback_add/remove/loop_stop (and connect/connect_async) called from inside any of the 14 callback kinds never self-deadlock, with all socket callbacks installed. Statement 3 (the packet is written by the enclosing or next loop iteration) is proved on a small model of _packet_queue's guard and checked on the implementation for the full product callback x API x loop variant x socket callbacks x version. Open findings F-C18d (reconnect inside on_disconnect: new socket closed) and F-C18e (loop_stop from an application-thread callback) are outside the one-thread lock model and reported as known findings.",
     ref="4.18", technique="Coq: verified reachability checker applied by vm_compute to a lock/call graph translated from the source on every run; instrumented-lock conversations on the real client",
     note="Trusted: Coq kernel, the lockgraph translator (fail closed; cross-checked against observed lock sets), harness. One-thread model: Thread.join in loop_stop is exact only on the loop thread; control flow over-approximated; threading.Lock/RLock semantics."),
+ "C19": dict(
+    text="Proof: the filter predicate of subscribe() accepts exactly the MQTT 4.7 grammar for EVERY byte string (equivalence with an independent specification predicate, induction over the '/'-split); publish() raises ValueError/TypeError exactly for the listed argument classes (whole-packet size limit included); subscribe()/unsubscribe() argument normalisation raises iff the call is not one of the documented forms, both directions; `_raise_for_invalid_topic` and `_filter_wildcard_len_check` are regenerated from the source on every run and bridged to the model. Atomicity of rejection is checked on the implementation (state snapshot before/after every rejected call over the exhaustive string space) - in the code all validation precedes any state change.",
+    ref="4.19", technique="Coq proof: predicate equivalence over all byte strings; leaf predicates translated from the source each run; exhaustive-string differential execution with state snapshots",
+    note="Trusted: Coq kernel, py2v translator, extraction+driver, harness; the reading of the docstring as the documented contract (stated in corpus/C19/REPORT.md); str.encode('utf-8')."),
 }
 PENDING = {}
 for i in range(1, 21):
